@@ -301,6 +301,14 @@ def write_evidence(mod, desc, st, tier, seed, t0, capped, violations, known=(), 
         cov.setdefault("states", st.extra.get("states", 0))
         cov.setdefault("transitions", st.extra.get("transitions", 0))
         cov.setdefault("traces_validated_against_impl", st.extra.get("traces_validated_against_impl", st.evaluations))
+    vp = os.path.join(VERIF, ".state", "validation.json")
+    if os.path.exists(vp):
+        try:
+            with open(vp) as f:
+                v = json.load(f)
+            cov["model_validation"] = {k: v[k] for k in v if not k.endswith("_classes") and not k.endswith("_skipped")}
+        except Exception:
+            pass
     doc = {"property_id": mod.PROP, "tier": tier, "seed": seed, "level": mod.LEVEL, "coverage": cov,
            "assumptions": desc.get("assumptions", []), "wall_s": round(time.time() - t0, 2), "violations": violations}
     d = os.path.join(VERIF, "evidence")
